@@ -51,3 +51,4 @@ import EtVerif.Props.TrGo10
 #print axioms EtVerif.TrGo10.go_setMinorDim_crop
 #print axioms EtVerif.TrGo10.go_vector_setDim
 #print axioms EtVerif.TrGo10.go_setMinorDim_shrink_then_grow
+#print axioms EtVerif.TrGo10.go_newCSR_then_transpose
